@@ -2,7 +2,13 @@
    Statements only: each theorem is closed by [exact] of a lemma proved in Proofs/Encoder.v.
 
    Model: Model/Encoder.v (EncodedBytes / EncodeBody / encode_item / finish_encoding / compress,
-   prepare_request, map_response, Status::into_http), tied to /repo by the h_encode harness.
+   map_response, Status::into_http, server::Grpc entry points) and Model/EncoderExt.v
+   (prepare_request and AddOrigin with their panic sites over http's Uri::from_parts and
+   PathAndQuery parser, the trailers with http's HeaderMap size limit, the ProstCodec encoder),
+   tied to /repo by the h_encode harness.  The harness evaluates [run_body_x] / [run_body_src],
+   [client_call_x], [server_call], [channel_request_x], [pq_parse]: the theorems below are about
+   these functions or are linked to them ([c03_run_body_x_plain], [c03_run_body_es_fst],
+   [c03_source_never_polled_after_end]).
    The codec ([ser], None = Encoder::encode returned Err) and the compressors ([compress]) are
    universally quantified: nothing is assumed about them.
 
@@ -21,7 +27,7 @@
                                  or a failing item and anything after it (fin = Some st);
                                  every item list has an outcome ([c03_outcome_total]) *)
 From Verif Require Import Lib.Bytes Lib.HeaderMap Model.Frame Model.Status Proofs.Status.
-From Verif Require Import Gen.StatusTables Model.Encoder Proofs.Encoder.
+From Verif Require Import Gen.StatusTables Model.Encoder Proofs.Encoder Model.EncoderExt Proofs.EncoderExt.
 Close Scope string_scope.
 Open Scope list_scope.
 Open Scope N_scope.
@@ -77,30 +83,44 @@ Theorem c03_client_no_trailers :
     forall t, ~ In (BFrame (FTrailers t)) (run_body msg enc ser compress c Client src extra).
 Proof. exact client_body_spec. Qed.
 
-(* request head (prepare_request): panics exactly for an origin http::Uri::from_parts refuses;
-   otherwise POST, HTTP/2, origin scheme/authority, the EXACT target [target_spec] (unfolded in
-   [c03_target_spec_unfolded]: with p = the origin's path-and-query cut at its first '?', the
-   method path when there is no path-and-query or p is empty or "/", otherwise p followed by the
-   method path, no slash removed or added), te: trailers, content-type:
-   application/grpc, grpc-encoding = the chosen send encoding (with none chosen the name is not
-   reserved and shows what the caller's metadata said), no grpc-status.
+(* request head (GrpcConfig::prepare_request), EVERY outcome.  Its two panic sites are explicit:
+     expect("must form valid path_and_query") fires exactly when the origin has a path prefix p
+        (its path-and-query cut at the first '?', not "/") and http does not parse
+        p ++ Display(method path) - [c03_target_in_domain]: only an origin "*" or a target longer
+        than 65534 bytes;
+     expect("path_and_query only is valid Uri") fires exactly when the target could be built and
+        the origin has a scheme without authority or an authority without scheme;
+   otherwise: POST, HTTP/2, the origin's scheme / authority, the EXACT target [target_spec_x], te:
+   trailers, content-type: application/grpc, grpc-encoding = the chosen send encoding (with none
+   chosen the name is not reserved and shows what the caller's metadata said), no grpc-status.
    response head (map_response / Status::into_http): HTTP 200 and content-type
    application/grpc; Ok => a body, no grpc-status in the headers, grpc-encoding = the negotiated
-   encoding; Err => trailers-only: no body, exactly one grpc-status, building it cannot panic *)
+   encoding; Err => trailers-only: no body, exactly one grpc-status, building it cannot fail *)
 Theorem c03_heads :
   forall origin send accept md path resp ae,
-  match u_scheme origin, u_authority origin with
-  | Some _, None | None, Some _ => prepare_request origin send accept md path = None
-  | _, _ =>
-      exists r target, prepare_request origin send accept md path = Some r /\
-        rq_method r = val_POST /\ rq_version r = HTTP_2 /\
-        u_scheme (rq_uri r) = u_scheme origin /\ u_authority (rq_uri r) = u_authority origin /\
-        u_pq (rq_uri r) = Some target /\ target_spec (u_pq origin) path target /\
-        hm_get_all (rq_headers r) hdr_te = [val_trailers] /\
-        hm_get_all (rq_headers r) hdr_content_type = [val_application_grpc] /\
-        hm_get_all (rq_headers r) hdr_grpc_encoding =
-          match send with Some e => [enc_name e] | None => hm_get_all md hdr_grpc_encoding end /\
-        hm_get_all (rq_headers r) hdr_grpc_status = []
+  match prepare_request_x origin send accept md path with
+  | PrepPanicTarget =>
+      exists pnq, u_pq origin = Some pnq /\ pq_path pnq <> [47] /\
+                  pq_parse (pq_path pnq ++ pq_display path) = None
+  | PrepPanicUri =>
+      (exists t, request_target_x origin path = TgOk t) /\
+      match u_scheme origin, u_authority origin with
+      | Some _, None | None, Some _ => True
+      | _, _ => False
+      end
+  | PrepOk r =>
+      match u_scheme origin, u_authority origin with
+      | Some _, None | None, Some _ => False
+      | _, _ => True
+      end /\
+      rq_method r = val_POST /\ rq_version r = HTTP_2 /\
+      u_scheme (rq_uri r) = u_scheme origin /\ u_authority (rq_uri r) = u_authority origin /\
+      (exists target, u_pq (rq_uri r) = Some target /\ target_spec_x (u_pq origin) path target) /\
+      hm_get_all (rq_headers r) hdr_te = [val_trailers] /\
+      hm_get_all (rq_headers r) hdr_content_type = [val_application_grpc] /\
+      hm_get_all (rq_headers r) hdr_grpc_encoding =
+        match send with Some e => [enc_name e] | None => hm_get_all md hdr_grpc_encoding end /\
+      hm_get_all (rq_headers r) hdr_grpc_status = []
   end /\
   match resp with
   | inl rmd =>
@@ -118,13 +138,42 @@ Theorem c03_heads :
         code_to_hv (st_code st) = Some cv /\
         hm_get_all (rs_headers r) hdr_grpc_status = [cv]
   end.
-Proof. exact heads. Qed.
+Proof. exact heads_x. Qed.
 
-(* what [target_spec] says: with p = the origin's path-and-query up to its first '?', the target
-   is the method path when the origin has no path-and-query or p is empty or "/", and p ++ method
-   path otherwise.  F-C03b (fixed, ab6a0ca8): origin http://h/?q=1 used to give //p.S/M.
-   Pinned observation, not judged: a prefix with a trailing slash keeps it (/api//p.S/M). *)
+(* what [target_spec_x] says: with p = the origin's path-and-query up to its first '?' ("/" when
+   that is empty), the target is the method path when the origin has no path-and-query or p = "/",
+   and otherwise what http parses p ++ Display(method path) to.
+   F-C03b (fixed, ab6a0ca8): origin http://h/?q=1 used to give //p.S/M. *)
 Theorem c03_target_spec_unfolded : forall origin_pq path target,
+  target_spec_x origin_pq path target <->
+  ((origin_pq = None -> target = path) /\
+   (forall pnq, origin_pq = Some pnq ->
+      (pq_path pnq = [47] -> target = path) /\
+      (pq_path pnq <> [47] ->
+         exists t, pq_parse (pq_path pnq ++ pq_display path) = Some t /\ target = pq_as_str t))).
+Proof. exact target_spec_x_unfolded. Qed.
+
+(* N-C03-1, the property's domain: the method path starts with '/' ("the method's
+   /package.Service/Method path"); origin path-and-query and method path are strings of http
+   PathAndQuery values ([pq_str]: they parse to themselves).  Then the target is EXACTLY
+   prefix ++ method path with prefix = the origin's path, or nothing when that is "/": nothing is
+   added, removed or normalised, in particular a prefix keeps its trailing slash ("/api/" gives
+   "/api//pkg.Svc/Method": the caller chose that prefix; the property text does not say that a
+   prefix is to be normalised - an OBSERVATION, see checks/C03.json).  The only panics in the
+   domain: an origin whose path is "*", and a target longer than http's 65534 bytes.
+   [target_spec] is the statement WITHOUT the model's helper functions ([c03_target_spec_plain]):
+   with origin path-and-query = p ++ q, p free of '?', q empty or starting with '?': the target is
+   the method path when p is empty or "/", and p ++ method path otherwise. *)
+Theorem c03_target_in_domain : forall origin pnq path r,
+  u_pq origin = Some pnq -> pq_str pnq -> pq_str path -> path = 47 :: r ->
+  match request_target_x origin path with
+  | TgOk t => t = request_target origin path /\ target_spec (u_pq origin) path t /\
+              (exists prefix, t = prefix ++ path /\ (prefix = [] \/ prefix = pq_path pnq))
+  | TgPanic => pq_path pnq = [42] \/ URI_MAX_LEN < nlen (pq_path pnq ++ path)
+  end.
+Proof. exact request_target_in_domain. Qed.
+
+Theorem c03_target_spec_plain : forall origin_pq path target,
   target_spec origin_pq path target <->
   ((origin_pq = None -> target = path) /\
    (forall pnq, origin_pq = Some pnq ->
@@ -134,20 +183,27 @@ Theorem c03_target_spec_unfolded : forall origin_pq path target,
 Proof. exact target_spec_unfolded. Qed.
 
 Example c03_target_root_with_query :     (* F-C03b: origin http://h/?q=1, method /p.S/M  =>  /p.S/M *)
-  option_map (fun r => u_pq (rq_uri r))
-    (prepare_request (mkUri (Some [104]) (Some [104]) (Some [47; 63; 113; 61; 49])) None [] []
-                     [47; 112; 46; 83; 47; 77]) = Some (Some [47; 112; 46; 83; 47; 77]).
+  request_target_x (mkUri (Some [104]) (Some [104]) (Some [47; 63; 113; 61; 49]))
+                   [47; 112; 46; 83; 47; 77] = TgOk [47; 112; 46; 83; 47; 77].
 Proof. reflexivity. Qed.
-Example c03_target_trailing_slash :      (* origin http://h/api/, method /p.S/M  =>  /api//p.S/M *)
-  option_map (fun r => u_pq (rq_uri r))
-    (prepare_request (mkUri (Some [104]) (Some [104]) (Some [47; 97; 112; 105; 47])) None [] []
-                     [47; 112; 46; 83; 47; 77]) = Some (Some [47; 97; 112; 105; 47; 47; 112; 46; 83; 47; 77]).
+Example c03_target_trailing_slash :      (* origin http://h/api/?q=1, method /p.S/M  =>  /api//p.S/M *)
+  request_target_x (mkUri (Some [104]) (Some [104]) (Some [47; 97; 112; 105; 47; 63; 113; 61; 49]))
+                   [47; 112; 46; 83; 47; 77] = TgOk [47; 97; 112; 105; 47; 47; 112; 46; 83; 47; 77].
 Proof. reflexivity. Qed.
 Example c03_target_plain :               (* origin http://h, method /p.S/M  =>  /p.S/M *)
-  option_map (fun r => u_pq (rq_uri r))
-    (prepare_request (mkUri (Some [104]) (Some [104]) (Some [47])) None [] []
-                     [47; 112; 46; 83; 47; 77]) = Some (Some [47; 112; 46; 83; 47; 77]).
+  request_target_x (mkUri (Some [104]) (Some [104]) (Some [47])) [47; 112; 46; 83; 47; 77] =
+    TgOk [47; 112; 46; 83; 47; 77].
 Proof. reflexivity. Qed.
+Example c03_target_star_origin_panics :  (* origin "*", method /p.S/M: "*/p.S/M" is no path-and-query *)
+  prepare_request_x (mkUri None None (Some [42])) None [] [] [47; 112; 46; 83; 47; 77] = PrepPanicTarget.
+Proof. reflexivity. Qed.
+Example c03_target_authority_form_panics :  (* origin "localhost:50051" *)
+  prepare_request_x (mkUri None (Some [104]) None) None [] [] [47; 112; 46; 83; 47; 77] = PrepPanicUri.
+Proof. reflexivity. Qed.
+(* the hypotheses of [c03_target_in_domain] hold of ordinary values *)
+Example c03_pq_str_witness :
+  pq_str [47; 97; 112; 105; 47; 63; 113; 61; 49] /\ pq_str [47; 112; 46; 83; 47; 77].
+Proof. split; reflexivity. Qed.
 
 (* head and body of ONE call (M10): [client_call] / [server_call] return the head together with
    the configuration of the EncodeBody built next to it (client::Grpc::streaming;
@@ -174,32 +230,70 @@ Theorem c03_server_call_link : forall sv sh rh has_msg hr r oc,
   end.
 Proof. exact server_call_link. Qed.
 
-Theorem c03_client_call_link : forall cl md path h c,
-  client_call cl md path = Some (h, c) ->
-  prepare_request (cl_origin cl) (cl_send cl) (cl_accept cl) md path = Some h /\
-  comp c = cl_send cl /\ override_disable c = false /\ max c = cl_max cl /\
-  match eff_comp c with
-  | Some e => hm_get_all (rq_headers h) hdr_grpc_encoding = [enc_name e]
-  | None => flag_of c = 0
+Theorem c03_client_call_link : forall cl md path,
+  match client_call_x cl md path with
+  | CallOk h c =>
+      prepare_request_x (cl_origin cl) (cl_send cl) (cl_accept cl) md path = PrepOk h /\
+      comp c = cl_send cl /\ override_disable c = false /\ max c = cl_max cl /\
+      match eff_comp c with
+      | Some e => hm_get_all (rq_headers h) hdr_grpc_encoding = [enc_name e]
+      | None => flag_of c = 0
+      end
+  | CallPanic true => prepare_request_x (cl_origin cl) (cl_send cl) (cl_accept cl) md path = PrepPanicUri
+  | CallPanic false => prepare_request_x (cl_origin cl) (cl_send cl) (cl_accept cl) md path = PrepPanicTarget
   end.
-Proof. exact client_call_link. Qed.
+Proof. exact client_call_link_x. Qed.
 
-(* what a tonic Channel adds in front of the connection (AddOrigin, UserAgent) changes nothing
-   C03 speaks about: only scheme/authority (the endpoint's) and user-agent *)
+(* what a tonic Channel adds in front of the connection (AddOrigin, UserAgent), EVERY outcome: an
+   endpoint origin without scheme or authority fails the call (Err); a request whose target has no
+   path-and-query makes AddOrigin's Uri::from_parts(..).expect("valid uri") fire (explicit
+   outcome; on the Channel's worker task); otherwise nothing C03 speaks about changes: only
+   scheme/authority (the endpoint's) and user-agent *)
 Theorem c03_channel_layers : forall origin custom tonic_ua r,
   match u_scheme origin, u_authority origin with
   | Some sc, Some au =>
-      exists r', channel_request origin custom tonic_ua r = ChOk r' /\
-        rq_method r' = rq_method r /\ rq_version r' = rq_version r /\
-        u_pq (rq_uri r') = u_pq (rq_uri r) /\
-        u_scheme (rq_uri r') = Some sc /\ u_authority (rq_uri r') = Some au /\
-        (forall k, bytes_eqb hdr_user_agent k = false ->
-                   hm_get_all (rq_headers r') k = hm_get_all (rq_headers r) k) /\
-        hm_get_all (rq_headers r') hdr_user_agent =
-          [match custom with Some c => c ++ [32] ++ tonic_ua | None => tonic_ua end]
-  | _, _ => channel_request origin custom tonic_ua r = ChErr
+      match u_pq (rq_uri r) with
+      | None => channel_request_x origin custom tonic_ua r = ChxPanic
+      | Some t =>
+          exists r', channel_request_x origin custom tonic_ua r = ChxOk r' /\
+            rq_method r' = rq_method r /\ rq_version r' = rq_version r /\
+            u_pq (rq_uri r') = Some t /\
+            u_scheme (rq_uri r') = Some sc /\ u_authority (rq_uri r') = Some au /\
+            (forall k, bytes_eqb hdr_user_agent k = false ->
+                       hm_get_all (rq_headers r') k = hm_get_all (rq_headers r) k) /\
+            hm_get_all (rq_headers r') hdr_user_agent =
+              [match custom with Some c => c ++ [32] ++ tonic_ua | None => tonic_ua end]
+      end
+  | _, _ => channel_request_x origin custom tonic_ua r = ChxErr
   end.
-Proof. exact channel_keeps_head. Qed.
+Proof. exact channel_layers_x. Qed.
+
+(* ... and a request that prepare_request built always has a path-and-query: a call tonic makes
+   never reaches AddOrigin's panic *)
+Theorem c03_prepared_request_passes_add_origin :
+  forall origin send accept md path h ep custom tonic_ua,
+  prepare_request_x origin send accept md path = PrepOk h ->
+  channel_request_x ep custom tonic_ua h <> ChxPanic.
+Proof. exact prepared_request_passes_add_origin. Qed.
+
+(* a whole client call through a Channel: whenever the call is made, what is handed to the
+   connection is an HTTP/2 POST to the very target prepare_request built, under the ENDPOINT's
+   scheme and authority, with te: trailers, content-type: application/grpc, the grpc-encoding of
+   the body configuration and no grpc-status *)
+Theorem c03_channel_call_head : forall cl md path h c ep custom tonic_ua h',
+  client_call_x cl md path = CallOk h c ->
+  channel_request_x ep custom tonic_ua h = ChxOk h' ->
+  rq_method h' = val_POST /\ rq_version h' = HTTP_2 /\
+  u_scheme (rq_uri h') = u_scheme ep /\ u_authority (rq_uri h') = u_authority ep /\
+  (exists target, u_pq (rq_uri h') = Some target /\ target_spec_x (u_pq (cl_origin cl)) path target) /\
+  hm_get_all (rq_headers h') hdr_te = [val_trailers] /\
+  hm_get_all (rq_headers h') hdr_content_type = [val_application_grpc] /\
+  hm_get_all (rq_headers h') hdr_grpc_status = [] /\
+  match eff_comp c with
+  | Some e => hm_get_all (rq_headers h') hdr_grpc_encoding = [enc_name e]
+  | None => flag_of c = 0
+  end.
+Proof. exact channel_call_head. Qed.
 
 (* the property's sentence for a whole call: the body of the call parses under the independent
    grammar to the encoded messages and each payload is the codec's serialization, compressed -
@@ -220,7 +314,7 @@ Proof. exact server_call_conformant. Qed.
 Theorem c03_client_call_conformant :
   forall (msg : Type) (ser : msg -> option (list N)) (compress : cenc -> list N -> list N)
          cl md path h c (src : list (sevent msg)) extra ms ps fin,
-  client_call cl md path = Some (h, c) ->
+  client_call_x cl md path = CallOk h c ->
   outcome ser compress c (items_of src) ms ps fin ->
   spec_body (concat (datas_of (frames_of (run_body msg cenc ser compress c Client src extra)))) =
     Some (map (pair (flag_of c)) ps) /\
@@ -228,7 +322,48 @@ Theorem c03_client_call_conformant :
      ((flag_of c = 1 /\ exists e, hm_get_all (rq_headers h) hdr_grpc_encoding = [enc_name e] /\
                                   p = compress e s) \/
       (flag_of c = 0 /\ p = s))) ms ps.
-Proof. exact client_call_conformant. Qed.
+Proof. exact client_call_conformant_x. Qed.
+
+(* "as judged by an independent decoder", decompression included.  [indep_decode decompress
+   headers body] is what a peer does: the grammar ([spec_body]), then every flag-1 payload is
+   inflated with the encoding named by the grpc-encoding header of the HEAD (none announced: not
+   decodable).  For ANY compressor / decompressor pair with decompress (compress s) = s - the
+   only thing assumed of flate2 / zstd, and exactly what oracle/grpc_wire.py checks of the real
+   bytes with Python's gzip / zlib and the system libzstd - the decoder recovers the codec's
+   serializations of precisely the delivered messages, for every schedule and configuration *)
+Theorem c03_server_call_decodes :
+  forall (msg : Type) (ser : msg -> option (list N)) (compress : cenc -> list N -> list N)
+         (decompress : cenc -> list N -> option (list N)),
+  (forall e s, decompress e (compress e s) = Some s) ->
+  forall sv sh rh has_msg hr r c (src : list (sevent msg)) extra ms ps fin,
+  server_call sv sh rh has_msg hr = Some (r, Some c) ->
+  outcome ser compress c (items_of src) ms ps fin ->
+  exists ss, Forall2 (fun m s => ser m = Some s) ms ss /\
+    indep_decode decompress (rs_headers r)
+      (concat (datas_of (frames_of (run_body msg cenc ser compress c Server src extra)))) = Some ss.
+Proof. exact server_call_decodes. Qed.
+
+Theorem c03_client_call_decodes :
+  forall (msg : Type) (ser : msg -> option (list N)) (compress : cenc -> list N -> list N)
+         (decompress : cenc -> list N -> option (list N)),
+  (forall e s, decompress e (compress e s) = Some s) ->
+  forall cl md path h c (src : list (sevent msg)) extra ms ps fin,
+  client_call_x cl md path = CallOk h c ->
+  outcome ser compress c (items_of src) ms ps fin ->
+  exists ss, Forall2 (fun m s => ser m = Some s) ms ss /\
+    indep_decode decompress (rq_headers h)
+      (concat (datas_of (frames_of (run_body msg cenc ser compress c Client src extra)))) = Some ss.
+Proof. exact client_call_decodes. Qed.
+
+(* the decoder is not vacuous: a flag-1 message without an announced encoding, a flag that is
+   neither 0 nor 1 and a short body are rejected *)
+Example c03_indep_decode_rejects :
+  let dec := fun (_ : cenc) (b : list N) => Some b in
+  indep_decode dec [] [1; 0; 0; 0; 1; 7] = None /\
+  indep_decode dec [(hdr_grpc_encoding, enc_name Gzip)] [1; 0; 0; 0; 1; 7] = Some [[7]] /\
+  indep_decode dec [] [2; 0; 0; 0; 0] = None /\
+  indep_decode dec [] [0; 0; 0; 0; 2; 7] = None.
+Proof. exact indep_decode_rejects. Qed.
 
 (* Body::is_end_stream (M3): false before the first poll; never true for a client body; for a
    server body the first true answer comes with the poll that hands out the trailers; after any
@@ -268,8 +403,52 @@ Example c03_unfused_poll_is_counted :
     (PNone, mkEnc [] None false, mkSource [] true 0 true).
 Proof. split; reflexivity. Qed.
 
-(* the panic sites of the encoder (the division in compress - F-C01a -, the usize subtraction in
-   finish_encoding) are explicit outcomes of the model and are never reached *)
+(* [run_body_es] pairs every poll result of [run_body] with the is_end_stream() answer after it *)
+Theorem c03_run_body_es_fst :
+  forall (msg enc : Type) (ser : msg -> option (list N)) (compress : enc -> list N -> list N)
+         (c : cfg enc) (r : role) (src : list (sevent msg)) (extra : nat),
+  map fst (run_body_es msg enc ser compress c r src extra) = run_body msg enc ser compress c r src extra.
+Proof. exact run_body_es_fst. Qed.
+
+(* the trailers and http's HeaderMap size limit.  [run_body_x] (what the harness evaluates) is the
+   body with Status::to_header_map's one remaining panic site explicit: a header map holds at most
+   24576 distinct names, and inserting into a full one is expect("size overflows MAX_SIZE")
+   ([to_header_map_panics]; F-C04d, fixed in 08dc8d0b, was the stronger defect that the
+   capacity HINT 3 + number of VALUES panicked).  When the metadata of every Err status the
+   source can yield has at most 24573 distinct non-reserved names - room for tonic's grpc-status,
+   grpc-message, grpc-status-details-bin - the run IS the plain model's, and no poll panics.  A
+   client body builds no trailers: no bound is needed there. *)
+Theorem c03_run_body_x_plain :
+  forall (msg enc : Type) (ser : msg -> option (list N)) (compress : enc -> list N -> list N)
+         (c : cfg enc) (r : role) (src : list (sevent msg)) (extra : nat),
+  (forall st, In (SItem (IErr st)) src -> distinct_count (sanitize (st_md st)) <= 24573) ->
+  run_body_x msg enc ser compress c r src extra = run_body_es msg enc ser compress c r src extra /\
+  ~ In BPanic (map fst (run_body_x msg enc ser compress c r src extra)).
+Proof. exact run_body_x_plain_spec. Qed.
+
+Theorem c03_run_body_x_client :
+  forall (msg enc : Type) (ser : msg -> option (list N)) (compress : enc -> list N -> list N)
+         (c : cfg enc) (src : list (sevent msg)) (extra : nat),
+  run_body_x msg enc ser compress c Client src extra = run_body_es msg enc ser compress c Client src extra.
+Proof. exact run_body_x_client. Qed.
+
+(* the bound is about NAMES: 30000 values of one name are one entry (the F-C04d witness), and the
+   boundary is exact: a status whose metadata alone fills the table panics *)
+Theorem c03_trailers_capacity_boundary : forall st cv,
+  (distinct_count (sanitize (st_md st)) + 3 <= HM_MAX_ENTRIES -> to_header_map_panics st = false) /\
+  (code_to_hv (st_code st) = Some cv -> HM_MAX_ENTRIES <= distinct_count (sanitize (st_md st)) ->
+   to_header_map_panics st = true) /\
+  distinct_count (st_md st) <= nlen (st_md st).
+Proof. exact trailers_capacity_boundary. Qed.
+Example c03_trailers_many_values :
+  to_header_map_panics (mkStatus Code_Aborted [109] [] (nrepeat 30000 ([120], [118]))) = false.
+Proof. exact run_body_x_many_values. Qed.
+
+(* the panic sites of the ENCODER (the division in compress - F-C01a -, the usize subtraction in
+   finish_encoding) are explicit outcomes of the model and are never reached.  (The other panic
+   sites C03 meets are explicit too and are NOT unreachable: prepare_request's two expects -
+   [c03_heads] -, AddOrigin's - [c03_channel_layers] -, the full header map -
+   [c03_run_body_x_plain].) *)
 Theorem c03_encoder_never_panics :
   forall (msg enc : Type) (ser : msg -> option (list N)) (compress : enc -> list N -> list N)
          (c : cfg enc) (r : role) (src : list (sevent msg)) (extra : nat),
@@ -322,6 +501,62 @@ Print Assumptions c03_server_call_conformant.
 Print Assumptions c03_client_call_conformant.
 Print Assumptions c03_is_end_stream_safe.
 Print Assumptions c03_source_never_polled_after_end.
+Print Assumptions c03_target_in_domain.
+Print Assumptions c03_channel_layers.
+Print Assumptions c03_prepared_request_passes_add_origin.
+Print Assumptions c03_channel_call_head.
+Print Assumptions c03_client_call_link.
+Print Assumptions c03_server_call_decodes.
+Print Assumptions c03_client_call_decodes.
+Print Assumptions c03_run_body_x_plain.
+Print Assumptions c03_run_body_x_client.
+Print Assumptions c03_trailers_capacity_boundary.
+
+(* L-C03 "second transcription": the response-encoding negotiation of Model/Encoder.v (used by
+   [server_call], hence by every c03_server_call_* theorem and by the harness) is, for every
+   request header map and every send configuration, the very function of Model/Negotiate.v - C05's
+   model, built on Gen/CompressionTables.v, which rs2v regenerates from compression.rs on every
+   run ([conv] / [slots_of] translate between the two encodings of "the enabled set") *)
+From Verif Require Gen.CompressionTables Model.Negotiate.
+Theorem c03_negotiation_is_c05s : forall (m : hm) (en : list cenc),
+  option_map conv (from_accept_encoding_header (hm_get m hdr_grpc_accept_encoding) en) =
+  Negotiate.from_accept_encoding_header m (slots_of en).
+Proof. exact from_accept_encoding_header_is_negotiate. Qed.
+
+(* ... and the request-encoding check (from_encoding_header) DECIDES like C05's: the same requests
+   are accepted with the same encoding, the same are rejected with the same code (UNIMPLEMENTED),
+   the same grpc-accept-encoding metadata, and a message that starts with C05's text (C05 models
+   the text only up to the offending value); C05's two panic outcomes there are never reached *)
+Theorem c03_request_encoding_check_is_c05s : forall (m : hm) (en : list cenc),
+  match from_encoding_header (hm_get m hdr_grpc_encoding) en,
+        Negotiate.from_encoding_header m (slots_of en) with
+  | inr o, Negotiate.RecvOk o' => option_map conv o = o'
+  | inl st, Negotiate.RecvErr st' =>
+      st_code st = st_code st' /\ st_md st = st_md st' /\ st_details st = st_details st' /\
+      exists rest, st_msg st = st_msg st' ++ rest
+  | _, _ => False
+  end.
+Proof. exact from_encoding_header_is_negotiate. Qed.
+Print Assumptions c03_request_encoding_check_is_c05s.
+
+(* the encoding names, the two header names, "identity", the token table and the
+   grpc-accept-encoding value written by hand in Model/Encoder.v equal the regenerated ones *)
+Theorem c03_encoding_constants_tied :
+  (forall e, enc_name e = Negotiate.as_str (conv e)) /\
+  hdr_grpc_encoding = CompressionTables.hdr_grpc_encoding /\
+  hdr_grpc_accept_encoding = CompressionTables.hdr_grpc_accept_encoding /\
+  val_identity = CompressionTables.encoding_header_identity /\
+  val_identity = CompressionTables.accept_value_fallback /\
+  (forall t, option_map conv (enc_of_name t) = Negotiate.token_encoding t) /\
+  (forall en, accept_value en =
+     match en with
+     | [] => None
+     | _ => Some (flat_map (fun e => Negotiate.as_str (conv e) ++ [CompressionTables.accept_value_sep]) en ++
+                  CompressionTables.accept_value_tail)
+     end).
+Proof. exact encoding_constants_tied. Qed.
+Print Assumptions c03_negotiation_is_c05s.
+Print Assumptions c03_encoding_constants_tied.
 
 (* the constants written by hand in the model equal the ones regenerated from the Rust source
    (Gen/ConstTables.v, rewritten by rs2v on every run) *)
